@@ -39,9 +39,11 @@ OLD_SIZE = 5000
 # exists, the script's own status / signal}; if there is any fault the command fails with one of those statuses and
 # the target stays as it was; otherwise the target becomes $3 (even when empty) if $3 exists, else stdout if
 # non-empty, else it is removed.
-O_, F_, W_, E_ = ("none", "data"), ("none", "empty", "data", "deleted", "append", "dir"), ("none", "new", "old"), ("0", "5", "kill9", "killTERM")
+O_, F_, W_, E_ = ("none", "data"), ("none", "empty", "data", "deleted", "append", "dir", "link"), ("none", "new", "old"), ("0", "5", "kill9", "killTERM")
 # f=dir: the script makes $3 a DIRECTORY (and then fails): only combined with o=none, w=none, e=5 -- the failure has to be
 # reported with the script's status and the directory removed like any other temporary output.
+# f=link: the script makes $3 a symbolic link whose pointee does not exist (a dangling link is still "$3 exists": it is
+# installed as the target, and together with stdout it is the 207 fault); combined with w=none and e in {0, 5}.
 # f=append: the script builds $3 with `>>` (legitimate: redo promises that $3 does not exist when the script starts).  It
 # differs from f=data only when a temporary file is lying around from an earlier, killed build: the prior states
 # "stale-tmp" (never built) and "generated+stale-tmp" put one there.
@@ -67,6 +69,8 @@ def make_behaviour(o, f, w, e):
     elif f == "dir":
         L.append('mkdir "$3"')
         L.append(src + ' > "$3/inside"')
+    elif f == "link":
+        L.append('ln -s no-such-file "$3"')
     elif f == "deleted":
         L.append(src + ' > "$3"')
         L.append('rm -f "$3"')
@@ -87,7 +91,7 @@ def make_behaviour(o, f, w, e):
     faults = set()
     if w != "none":
         faults.add(206)
-    if o == "data" and f in ("empty", "data", "append"):
+    if o == "data" and f in ("empty", "data", "append", "link"):
         faults.add(207)
     if e == "5":
         faults.add(5)
@@ -99,13 +103,15 @@ def make_behaviour(o, f, w, e):
         return "\n".join(L), ("fail", sorted(faults), None)
     if f == "empty":
         return "\n".join(L), ("ok-new", [0], "empty")
+    if f == "link":
+        return "\n".join(L), ("ok-new", [0], "link")
     if f in ("data", "append") or o == "data":
         return "\n".join(L), ("ok-new", [0], "new")
     return "\n".join(L), ("ok-absent", [0], None)
 
 
 BEHAVIOURS = {behaviour_name(o, f, w, e): make_behaviour(o, f, w, e) for o in O_ for f in F_ for w in W_ for e in E_
-              if f != "dir" or (o, w, e) == ("none", "none", "5")}
+              if (f != "dir" or (o, w, e) == ("none", "none", "5")) and (f != "link" or (w == "none" and e in ("0", "5")))}
 
 
 def writes_target_itself(b):
@@ -113,7 +119,7 @@ def writes_target_itself(b):
 
 
 def has_output(b):
-    return "o=data" in b or "f=data" in b or "f=append" in b or "f=deleted" in b or "f=dir" in b or ",w=new" in b or ",w=old" in b
+    return "o=data" in b or "f=data" in b or "f=append" in b or "f=deleted" in b or "f=dir" in b or "f=link" in b or ",w=new" in b or ",w=old" in b
 
 
 _W = {}
@@ -150,6 +156,8 @@ def programs(tier):
 
 def _state(path: Path, old: bytes, new: bytes):
     try:
+        if path.is_symlink():
+            return "new" if new == b"L:" + os.readlink(path).encode() else "link:" + os.readlink(path)
         if path.is_dir():
             return "dir"
         d = path.read_bytes()
@@ -177,6 +185,8 @@ def run_program(prog):
         (p / "payload.new").write_bytes(new)
         if newkind == "empty":
             new = b""          # the script leaves an empty $3: that is the complete new target
+        if newkind == "link":
+            new = b"L:no-such-file"    # the script leaves a dangling symbolic link: that link is the new target
         (p / "payload.old").write_bytes(old)
         env = common.base_env(_W["bindir"], home)
         target = p / "t"
